@@ -349,3 +349,14 @@ REG.contract('C01', IB, 'InterpreterBase.evaluate_statement', variant='Parenthes
              ensures=[f"len({_DALL}) == 1 and {_DALL}[0][0] == 'evaluate_statement' and {_DALL}[0][1] is cur.inner and result is {_DALL}[0][-1]"],
              raises={'MesonException': 'True'}, exact_raises=False, method_effects=_LME, modifies=['self.current_node'], floor=2,
              note='parentheses only group: the value is the value of the inner expression')
+
+
+# ---- escape decoding of '...' literals (statement: escape decoding only for '...'): ONE pass of the one escape pattern over the raw text,
+# so that what an escape produces (the backslash of `\\\\`) is never read as the start of another escape (round nine; the pattern
+# itself is compared with the documented escape sequences in contracts/regexes.py)
+_RS = "[e for e in __trace__ if e[0] == 're.sub']"
+REG.contract('C01', 'mesonbuild/mparser.py', 'StringNode.escape', variant='c01',
+             params={'self': Struct('StringNode', 'mesonbuild.mparser:StringNode', raw_value=Str, is_multiline=Bool, value=Str)},
+             raises={'UnicodeDecodeError': 'True'}, exact_raises=False,
+             ensures=[f"len({_RS}) == 1", f"{_RS}[0][1] is ESCAPE_SEQUENCE_SINGLE_RE", f"{_RS}[0][2] == self.raw_value", f"result == {_RS}[0][3]"], result=Str, floor=1,
+             note="the value of a '...' literal is ONE re.sub pass over its raw text with the one escape pattern: escapes are decoded once, left to right, and decoded text is not scanned again")
